@@ -257,8 +257,11 @@ ExecCb(o) ==
   /\ h' = Append(h, EvExec(Top.n, Top.att + 1, Top.pv, o, tok))
   /\ tok' = tok + 1
   /\ ctx' = IF o.cancel THEN "done" ELSE ctx
+  \* (an attempt that cancels the context and fails may report the context's own error - wrapped in its error value -
+  \* as a well-behaved exec function does; the harness does so for odd tokens)
   /\ stack' = SetTop(AfterAttempt(Top, o.out # "err",
-                       IF o.out = "eres" THEN ERes(tok) ELSE Raw(ValTok(o, tok)), TokErr(tok)))
+                       IF o.out = "eres" THEN ERes(tok) ELSE Raw(ValTok(o, tok)),
+                       [TokErr(tok) EXCEPT !.ctx = (o.cancel /\ tok % 2 = 1)]))
   /\ UNCHANGED <<cfg, tbl, ret, ph, ci, run>>
 
 \* Flow.Exec entered (flyt.go:862-874)
